@@ -34,8 +34,9 @@ THEOREMS = ['Pycdlib.Tools.fmt3_injective', 'Pycdlib.Tools.isoChild_fresh', 'Pyc
 PARTIAL = {
     'gen_extract_partial': 'the op list the tool issues and the extraction walk are not modelled as one function; the round trip is '
     'decided per generated tree by running the real scripts. Process, filesystem and locale behaviour are validated only.',
-    'dedup_sound': 'false of the code: equality of (size, 32-bit hash) is taken for equality of content; Lean witness mm3_collision, '
-    'recorded finding C20.dedup/hash-collision',
+    'dedup_sound': 'the duplicate-detection key (size, 32-bit chained murmur3) is not injective (theorem dedup_key_not_injective with the '
+    'kernel-checked witness mm3_collision); since fix eb29776 the tool compares contents before linking. Two probes run on every '
+    'check: the Lean witness pair and a pair longer than the 32 KiB hashing chunk found with the tool\'s own function',
 }
 TRUSTED = ['subprocess execution of the two scripts; os.walk / filecmp-style comparison in this file']
 ASSUMPTIONS = ['tmp directory on a POSIX filesystem that supports symlinks and UTF-8 names']
